@@ -7,6 +7,9 @@ Rules
       toPosition3D keeps the position and the upper-left 3x3 block; the by-value and pose-and-twist overloads delegate
   K3  rigid transform of a pose acts as the SE(3) action: position' = R p + T with the transform's own parts, attitude' = Euler extraction
       of R * R(pose) on every path (a special-case path is accepted only outside the quantifier: closer than 1e-3 rad to gimbal lock)
+  K5  the attitude matrix the pose action is built on: SmartRotation3D (constructed from the pose's Euler angles) holds Rz Ry Rx of those
+      angles - the builder rules of C10 (R1/R2/R4) evaluated under this rule name on witness angles of THIS quantifier (any pitch at least
+      1e-3 rad away from gimbal lock, not only |pitch| < pi/2)
   K4  uncertainty ellipse: built from the xy covariance block; major radius from principal value 0, minor from 1, orientation from
       principal vector 0, radii sqrt(value) * sigmaScale, square roots only of values that cannot be negative (singular values)
 Not decided: PSD preservation numerically, ellipse reconstruction to rounding, composition of transforms numerically."""
@@ -19,7 +22,7 @@ from .C14 import stmts_sx
 from .C12 import PoseHook
 
 LEVEL = 'other'
-UNITS = ['src/geometry/Pose3D.cpp', 'src/geometry/Pose2D.cpp', 'src/geometry/Position2D.cpp', 'src/geometry/Twist3D.cpp', 'src/geometry/PoseAndTwist3D.cpp',
+UNITS = ['src/transform/SmartRotation3D.cpp', 'src/geometry/Pose3D.cpp', 'src/geometry/Pose2D.cpp', 'src/geometry/Position2D.cpp', 'src/geometry/Twist3D.cpp', 'src/geometry/PoseAndTwist3D.cpp',
          'src/geometry/Ellipse.cpp', 'verif:inst_geometry.cpp']
 ENGINES = 'E-SIB + E-ALG + E-INT over romea-facts'
 TECHNIQUE = 'final state of nested output structs (copy-out of by-reference parameters), witness transforms inside unclassified shortcut conditions; matrix-valued formula extraction: selection maps compared entry by entry on symbolic matrices, component routing by symbolic final states, SE(3) action shape, structural ellipse index agreement and square-root domain'
@@ -42,6 +45,47 @@ def run(fx, R, tier):
     check_routing(fx, R)
     check_pose_action(fx, R)
     check_ellipse(fx, R)
+    from . import C10_alg
+
+    def dom(s_):
+        n = s_.name.lower()
+        if 'axis' in n or n in ('roll', 'pitch', 'yaw'):
+            return (-620, 620)
+        return None
+    saved = C10_alg.ANGLE_DOMAIN[0]
+    C10_alg.ANGLE_DOMAIN[0] = dom
+    try:
+        C10_alg.check_smart_rotation(fx, _Remap5(R))
+    finally:
+        C10_alg.ANGLE_DOMAIN[0] = saved
+
+
+class _Remap5:
+    """Forwards C10's builder verdicts under rule K5."""
+
+    def __init__(self, R):
+        self.R = R
+
+    def holds(self, rule, inst, *a, **k):
+        self.R.holds('K5', '%s[%s]' % (inst, rule), *a, **k)
+
+    def violated(self, rule, inst, *a, **k):
+        self.R.violated('K5', '%s[%s]' % (inst, rule), *a, **k)
+
+    def undecided(self, rule, inst, *a, **k):
+        self.R.undecided('K5', '%s[%s]' % (inst, rule), *a, **k)
+
+    def check(self, cond, rule, inst, *a, **k):
+        return self.R.check(cond, 'K5', '%s[%s]' % (inst, rule), *a, **k)
+
+    def form(self, cond, rule, inst, *a, **k):
+        return self.R.form(cond, 'K5', '%s[%s]' % (inst, rule), *a, **k)
+
+    def used(self, *f):
+        self.R.used(*f)
+
+    def floor(self, rule, n):
+        pass
 
 
 def reader(fx, hook=mat.hook):
